@@ -205,37 +205,61 @@ def combine (lo mid hi : Int) (trust : F64) : Int × F64 :=
     (durationSeconds (Int64.ofInt hi - Int64.ofInt lo).toInt))
   (mid, if lt w c1 then c1 else w)
 
-/-- Everything `Do` computes (the branch and the pre-`Inv` offset are exposed for the
-    theorems; Go only returns `out`). -/
+/-- Everything `Do` computes (the limits, the branch and the seconds values are exposed for
+    the theorems and the driver's branch tag; Go only returns `out`). -/
 structure NtimedResult where
   state : Ntimed
-  branch : Nat
   lo : F64
   hi : F64
+  loLim : F64
+  hiLim : F64
+  failLo : Bool
+  failHi : Bool
+  branch : Nat
   mid : F64
   out : Int
 deriving Repr
 
+/-- `if f.epoch != timebase.Epoch() { f.Reset() }` -/
+def ntimedEnter (e : Nat) (f : Ntimed) : Ntimed :=
+  if f.epoch ≠ e then ntimedReset e f else f
+
+/-- `if f.navg < filterAverage { f.navg += 1.0 }` -/
+def ntimedNavg (f : Ntimed) : F64 :=
+  if lt f.navg c20 then add f.navg c1 else f.navg
+
+/-- `loNoise, hiNoise` -/
+def ntimedNoise (f : Ntimed) (navg : F64) : F64 × F64 :=
+  if gt navg c2 then
+    (sqrt (sub f.alolo (mul f.alo f.alo)), sqrt (sub f.ahihi (mul f.ahi f.ahi)))
+  else (c0, c0)
+
+/-- The `if failLo && failHi … else if … else …` chain: the branch number and the value
+    of `mid` after it. -/
+def ntimedBranch (f : Ntimed) (navg lo hi mid : F64) (failLo failHi : Bool) : Nat × F64 :=
+  if failLo && failHi then (1, mid)
+  else if gt navg c3 && failLo then (2, add f.amid (sub hi f.ahi))
+  else if gt navg c3 && failHi then (3, add f.amid (sub lo f.alo))
+  else (4, mid)
+
+/-- The seconds values `lo`, `hi` and the initial `mid := (lo + hi) / 2` of a sample. -/
+def ntimedLo (x : Sample) : F64 := durationSeconds (timeSub x.cTx x.sRx).toInt
+def ntimedHi (x : Sample) : F64 := durationSeconds (timeSub x.cRx x.sTx).toInt
+def ntimedMid (x : Sample) : F64 := div (add (ntimedLo x) (ntimedHi x)) c2
+
 /-- `(*NtimedFilter).Do`; `e` is the value `timebase.Epoch()` returns during the call. -/
 def ntimedDoFull (e : Nat) (f : Ntimed) (x : Sample) : NtimedResult :=
-  let lo := durationSeconds (timeSub x.cTx x.sRx).toInt
-  let hi := durationSeconds (timeSub x.cRx x.sTx).toInt
-  let mid := div (add lo hi) c2
-  let f := if f.epoch ≠ e then ntimedReset e f else f
-  let navg := if lt f.navg c20 then add f.navg c1 else f.navg
-  let noise : F64 × F64 :=
-    if gt navg c2 then
-      (sqrt (sub f.alolo (mul f.alo f.alo)), sqrt (sub f.ahihi (mul f.ahi f.ahi)))
-    else (c0, c0)
+  let lo := ntimedLo x
+  let hi := ntimedHi x
+  let mid := ntimedMid x
+  let f := ntimedEnter e f
+  let navg := ntimedNavg f
+  let noise := ntimedNoise f navg
   let loLim := sub f.alo (mul noise.1 c3)
   let hiLim := add f.ahi (mul noise.2 c3)
   let failLo := lt lo loLim
   let failHi := gt hi hiLim
-  let bm : Nat × F64 :=
-    if failLo && failHi then (1, mid)
-    else if gt navg c3 && failLo then (2, add f.amid (sub hi f.ahi))
-    else if gt navg c3 && failHi then (3, add f.amid (sub lo f.alo))
-    else (4, mid)
+  let bm := ntimedBranch f navg lo hi mid failLo failHi
   let branch := bm.1
   let mid := bm.2
   let r := if gt navg c2 && branch ≠ 4 then mul navg navg else navg
@@ -247,7 +271,8 @@ def ntimedDoFull (e : Nat) (f : Ntimed) (x : Sample) : NtimedResult :=
   let ow := combine (toDuration lo) (toDuration mid) (toDuration hi) c1
   { state := { epoch := f.epoch, alo := alo, amid := amid, ahi := ahi,
                alolo := alolo, ahihi := ahihi, navg := navg }
-    branch := branch, lo := lo, hi := hi, mid := mid
+    lo := lo, hi := hi, loLim := loLim, hiLim := hiLim, failLo := failLo, failHi := failHi
+    branch := branch, mid := mid
     out := inv64 ow.1 }
 
 def ntimedDo (e : Nat) (f : Ntimed) (x : Sample) : Ntimed × Int :=
